@@ -2,20 +2,6 @@
 // fragment graph_iter.rs - whole-graph iterators of Graph (property C01): Externals
 // ======================================================================================
 
-// `iter::Enumerate` has no vstd specification.  The type is declared external; its `next` is then covered by vstd's generic
-// prophetic `Iterator::next` contract, and the only ASSUMPTION is what the constructor yields (D23):
-// `S.iter().enumerate()` -> `enumerate_slice(&S)`: the items of S in order, each paired with its index.
-#[verifier::external_type_specification]
-#[verifier::external_body]
-#[verifier::reject_recursive_types(I)]
-pub struct ExEnumerate<I>(iter::Enumerate<I>);
-#[verifier::external_body]
-pub fn enumerate_slice<'a, T>(s: &'a [T]) -> (r: iter::Enumerate<slice::Iter<'a, T>>)
-    ensures r.obeys_prophetic_iter_laws(), r.decrease() is Some,
-        r.remaining().len() == s@.len(),
-        forall|i: int| 0 <= i < s@.len() ==> (#[trigger] r.remaining()[i]).0 == i && *r.remaining()[i].1 == s@[i]
-{ s.iter().enumerate() }
-
 /// a node slot without edges in direction k (and, for an undirected graph, without edges at all)
 pub open spec fn is_external<N, Ix: IndexType>(n: Node<N, Ix>, k: int, directed: bool) -> bool {
     n.next[k].0.ix() == end_ix::<Ix>() && (directed || n.next[1 - k].0.ix() == end_ix::<Ix>())
